@@ -476,3 +476,26 @@ Definition register (tbl : ukey -> list str) (m : list (ukey * list str)) (k : u
 Definition run_request (tbl : ukey -> list str) (touched : list ukey) : list (ukey * list str) :=
   fold_left (register tbl) touched [].
 Definition units_of (m : list (ukey * list str)) : list unit_ := map (fun kv => (fst (fst kv), snd (fst kv), snd kv)) m.
+
+(** ** Access times.  One request = a sequence of events in the order the server executes them:
+    accessors running outside of / before any provider, the creation of the provider's registry
+    (`RegisterCtx::provide_context()`, first statement of `provide_i18n_context_component_inner`), accessors
+    running EAGERLY while the provider's children are being built (`t_string!`, `td_string!`, `t_display!`,
+    `td_display!` in a component body), accessors running LAZILY while the HTML is rendered (the closures
+    made by `t!` / `td!`), then `to_array`.  `register` without a registry in scope does nothing
+    (`use_context` gives `None`). *)
+Inductive ev := EvProvide | EvAccess (k : ukey).
+Fixpoint run_events (tbl : ukey -> list str) (evs : list ev) (st : option (list (ukey * list str)))
+  : option (list (ukey * list str)) :=
+  match evs with
+  | [] => st
+  | EvProvide :: r => run_events tbl r (Some [])
+  | EvAccess k :: r =>
+      run_events tbl r (match st with Some m => Some (register tbl m k) | None => None end)
+  end.
+(** the provider component: registry first, then the children (eager accesses), then rendering (lazy accesses) *)
+Definition page_events (before eager lazy : list ukey) : list ev :=
+  map EvAccess before ++ EvProvide :: map EvAccess eager ++ map EvAccess lazy.
+(** a provider that would create the registry only after its children were built *)
+Definition page_events_late (before eager lazy : list ukey) : list ev :=
+  map EvAccess before ++ map EvAccess eager ++ EvProvide :: map EvAccess lazy.
